@@ -22,13 +22,18 @@ const MODE = C.argAfter('--property', 'C06') // C06: virtualTree updates; C07: d
 const MAIN = 'd/m'
 
 const clone = (v) => (typeof v === 'function' || v === null || typeof v !== 'object' ? v : Array.isArray(v) ? v.map(clone) : Object.fromEntries(Object.keys(v).map((k) => [k, clone(v[k])])))
-const key = (v) => JSON.stringify(v, (k, x) => (x === undefined ? '__u__' : typeof x === 'function' ? '__f__' : Number.isNaN(x) ? '__nan__' : x))
+const key = (v) => JSON.stringify(v, (k, x) => (x === undefined ? '__u__' : typeof x === 'function' ? '__f__' + x.name : Number.isNaN(x) ? '__nan__' : x))
+
+/** functions in recorded histories are written by name */
+const encFns = (v) => (typeof v === 'function' ? { $fn: v.name } : v === null || typeof v !== 'object' ? v : Array.isArray(v) ? v.map(encFns) : Object.fromEntries(Object.keys(v).map((k) => [k, encFns(v[k])])))
+const decFns = (v) => (v === null || typeof v !== 'object' ? v : Array.isArray(v) ? v.map(decFns) : typeof v.$fn === 'string' ? G.FNS[v.$fn] : Object.fromEntries(Object.keys(v).map((k) => [k, decFns(v[k])])))
 
 const INITIAL = [
-  { x: 'X', y: 'Y', c: 1, d: 0, d2: 1, a: { b: 'B' }, n: 't', b: 'BB', list: [{ id: 1, v: 'p' }, { id: 2, v: 'q' }, { id: 3, v: 'r' }, { id: 4, v: 's' }, { id: 5, v: 'u' }], obj: { a: { id: 1, v: 'p' }, b: { id: 2, v: 'q' }, c: { id: 3, v: 'r' } } },
+  { f: G.FNS.f1, x: 'X', y: 'Y', c: 1, d: 0, d2: 1, a: { b: 'B' }, n: 't', b: 'BB', list: [{ id: 1, v: 'p' }, { id: 2, v: 'q' }, { id: 3, v: 'r' }, { id: 4, v: 's' }, { id: 5, v: 'u' }], obj: { a: { id: 1, v: 'p' }, b: { id: 2, v: 'q' }, c: { id: 3, v: 'r' } } },
   { x: undefined, y: null, c: 0, d: 1, d2: 0, a: undefined, n: 'u', b: undefined, list: [], obj: {} },
 ]
 const ALT = {
+  f: [G.FNS.f1, G.FNS.f2, undefined],
   x: ['X', 'X2', undefined, null, 0, '', 7],
   y: ['Y', 'Y2', undefined, 0],
   c: [1, 0, 'a', '', undefined],
@@ -37,8 +42,8 @@ const ALT = {
   n: ['t', 'u', 'b', undefined, ''],
   b: ['BB', 'B3', undefined],
   a: [{ b: 'B' }, { b: 'B2' }, undefined, null, { b: undefined }],
-  obj: [{ a: { id: 1, v: 'p' }, b: { id: 2, v: 'q' }, c: { id: 3, v: 'r' } }, {}, { b: { id: 2, v: 'q' }, a: { id: 1, v: 'p' } }, { a: { id: 1, v: 'p' }, z: { id: 9, v: 'new' }, b: { id: 2, v: 'q' } }, undefined, { a: { id: 2, v: 's' }, b: { id: 2, v: 't' } }],
-  list: [[{ id: 1, v: 'p' }, { id: 2, v: 'q' }, { id: 3, v: 'r' }, { id: 4, v: 's' }, { id: 5, v: 'u' }], [{ id: 1, v: 'p' }, { id: 2, v: 'q' }, { id: 3, v: 'r' }], [], [{ id: 3, v: 'r' }, { id: 1, v: 'p' }], [1, 2], ['', 0], { k: 1, m: 2 }, 'ab', 2, undefined, null, [[1, 2], 'xy']],
+  obj: [{ a: { id: 1, v: 'p' }, b: { id: 2, v: 'q' }, c: { id: 3, v: 'r' } }, {}, { b: { id: 2, v: 'q' }, a: { id: 1, v: 'p' } }, { a: { id: 1, v: 'p' }, z: { id: 9, v: 'new' }, b: { id: 2, v: 'q' } }, undefined, { a: { id: 2, v: 's' }, b: { id: 2, v: 't' } }, { z: { id: 1, v: 'p' }, b: { id: 2, v: 'q' }, c: { id: 3, v: 'r' } }, { a: { id: 1, v: 'p' }, b: { id: 2, v: 'q' }, y: { id: 3, v: 'r' } }],
+  list: [[{ id: 1, v: 'p' }, { id: 2, v: 'q' }, { id: 3, v: 'r' }, { id: 4, v: 's' }, { id: 5, v: 'u' }], [{ id: 1, v: 'p' }, { id: 2, v: 'q' }, { id: 3, v: 'r' }], [], [{ id: 3, v: 'r' }, { id: 1, v: 'p' }], [1, 2], ['', 0], { k: 1, m: 2 }, 'ab', 2, undefined, null, [[1, 2], 'xy'], { p: { id: 1, v: 'p' }, q: { id: 2, v: 'q' }, r: { id: 3, v: 'r' }, s: { id: 4, v: 's' }, t: { id: 5, v: 'u' } }],
 }
 
 function setPath(data, path, value) {
@@ -207,7 +212,7 @@ function exploreCase(cs, bundle, rep, depth2) {
     failed = true
     const labels = history.map((t) => t.label)
     rep.violation(`${MODE}|${cs.name.replace(/\|syntax.*/, '')}`, `template ${JSON.stringify(cs.__src)} (${cs.name}): after ${JSON.stringify(labels)} from initial state ${init} the tree is ${got} but a fresh creation with the same data ${key(data)} gives ${want}`,
-      { engine: MODE.toLowerCase(), case: cs.name, initial: init, history: history.map((t) => t.ops), labels })
+      { engine: MODE.toLowerCase(), case: cs.name, initial: init, history: encFns(history.map((t) => t.ops)), labels })
   }
   INITIAL.forEach((init, ii) => {
     const t1s = transitions(init, names, false, /wx:key/.test(cs.__src || ''))
@@ -217,7 +222,7 @@ function exploreCase(cs, bundle, rep, depth2) {
       try {
         comp = D.create(bundle, MAIN, init, updateMode)
         applyToInstance(comp, t1)
-      } catch (e) { rep.violation(`${MODE}|update-throws|${cs.name}`, `template ${JSON.stringify(cs.__src)}: ${t1.label} from initial state ${ii} throws ${e}`, { engine: MODE.toLowerCase(), case: cs.name, initial: ii, history: [t1.ops], labels: [t1.label] }); failed = true; return }
+      } catch (e) { rep.violation(`${MODE}|update-throws|${cs.name}`, `template ${JSON.stringify(cs.__src)}: ${t1.label} from initial state ${ii} throws ${e}`, { engine: MODE.toLowerCase(), case: cs.name, initial: ii, history: encFns([t1.ops]), labels: [t1.label] }); failed = true; return }
       rep.transitions += 1
       rep.evaluations += 1
       const k1 = ii + '|' + key(d1)
@@ -236,7 +241,7 @@ function exploreCase(cs, bundle, rep, depth2) {
           c2 = D.create(bundle, MAIN, init, updateMode)
           applyToInstance(c2, t1)
           applyToInstance(c2, t2)
-        } catch (e) { rep.violation(`${MODE}|update-throws|${cs.name}`, `template ${JSON.stringify(cs.__src)}: ${t1.label}, ${t2.label} throws ${e}`, { engine: MODE.toLowerCase(), case: cs.name, initial: ii, history: [t1.ops, t2.ops], labels: [t1.label, t2.label] }); failed = true; return }
+        } catch (e) { rep.violation(`${MODE}|update-throws|${cs.name}`, `template ${JSON.stringify(cs.__src)}: ${t1.label}, ${t2.label} throws ${e}`, { engine: MODE.toLowerCase(), case: cs.name, initial: ii, history: encFns([t1.ops, t2.ops]), labels: [t1.label, t2.label] }); failed = true; return }
         rep.transitions += 1
         rep.evaluations += 1
         const k2 = ii + '|' + key(d2)
@@ -277,7 +282,7 @@ function exploreCase(cs, bundle, rep, depth2) {
           if (got !== want) {
             failed = true
             rep.violation(`C06|direct:${tn}|${cs.name.replace(/\|syntax.*/, '')}`, `template ${JSON.stringify(cs.__src)} (${cs.name}): ProcGenWrapper.update with the new data of ${JSON.stringify(t1.label)} from initial state ${ii} and the ${tn} update-path tree ${key(tree)} leaves ${got}, a fresh creation with the same data gives ${want}`,
-              { engine: 'c06', case: cs.name, initial: ii, direct: { ops: t1.ops, tree, kind: tn }, history: [], labels: [t1.label + ' (direct, ' + tn + ')'] })
+              { engine: 'c06', case: cs.name, initial: ii, direct: { ops: encFns(t1.ops), tree, kind: tn }, history: [], labels: [t1.label + ' (direct, ' + tn + ')'] })
             break
           }
         }
@@ -297,7 +302,7 @@ function exploreEquivalence(cs, bundle, bundle2, rep, depth2) {
     if (failed) return
     failed = true
     rep.violation(`C14|update-equivalence|${cs.name.replace(/\|syntax.*/, '')}`, `template ${JSON.stringify(cs.__src)} (${cs.name}) and its re-printed text ${JSON.stringify(cs.__printed)}: ${labels.length ? 'after ' + JSON.stringify(labels) + ' ' : 'at creation '}from initial state ${init} the original shows ${a}, the re-printed one ${b}`,
-      { engine: 'c14u', case: cs.name, initial: init, history: ops, labels })
+      { engine: 'c14u', case: cs.name, initial: init, history: encFns(ops), labels })
   }
   const run = (b, init, ts) => {
     try {
@@ -340,7 +345,7 @@ function exploreEquivalence(cs, bundle, bundle2, rep, depth2) {
 // histories interleave updates of the parent's data with updates of the child's data (slot values change, slot
 // instances appear and disappear)
 
-const K_TEMPLATE = '<span>{{p}}|{{val}}</span>'
+const K_TEMPLATE = '<span>{{p}}|{{val}}|{{style}}</span>'
 const CHILD_TEMPLATES = {
   'comp/single': '<slot u="{{p}}" u-v="{{p}}" v="{{p}}" a="{{q}}" zz="{{q}}" w="{{q}}"/><slot name="s" u="{{p}}" v="{{q}}"/>',
   'comp/repeated': '<block wx:for="{{ps}}"><slot u="{{item}}" u-v="{{item}}" v="{{item}}" a="{{q}}"/></block><slot name="s" u="{{p}}"/>',
@@ -422,7 +427,7 @@ function exploreSlotCase(cs, bundle, rep, thorough) {
           if (got !== want) {
             failed = true
             rep.violation(`${MODE}|slot-scope|${childPath}|${cs.name.replace(/\|syntax.*/, '')}`, `template ${JSON.stringify(cs.__src)} (${cs.name}) with the slot-providing child ${JSON.stringify(CHILD_TEMPLATES[childPath])}: after ${JSON.stringify(labels)} from initial state ${ii} the tree is ${got} but a fresh creation with parent data ${key(d2)} and child data ${key(c2)} gives ${want}`,
-              { engine: MODE.toLowerCase(), case: cs.name, slot: childPath, initial: ii, history: [t1, t2].filter(Boolean).map((t) => ({ child: !!t.child, ops: t.ops })), labels })
+              { engine: MODE.toLowerCase(), case: cs.name, slot: childPath, initial: ii, history: encFns([t1, t2].filter(Boolean).map((t) => ({ child: !!t.child, ops: t.ops }))), labels })
             break
           }
         }
@@ -531,6 +536,8 @@ function runShard(info, thorough) {
 }
 
 function replayOne(rec) {
+  if (rec.history) rec.history = decFns(rec.history)
+  if (rec.direct) rec.direct.ops = decFns(rec.direct.ops)
   if (MODE === 'C04') {
     const cs = G.corpus(true).find((c) => c.name === rec.case)
     if (!cs) return { deterministic: true, failure: null, note: 'case no longer in the corpus' }
